@@ -1148,18 +1148,28 @@ buildCommand(BuildContext& context, ninja::Command* command) {
       // indicated a failure? It probably doesn't matter.
       auto commandHash = CommandSignature(command->getCommandString());
       if (command->getRule() == context.manifest->getPhonyRule()) {
-        // Get the result.
-        BuildValue result = computeCommandResult(commandHash);
-
-        // If any output is missing, then we always want to force the change to
-        // propagate.
+        // Get the result. An output that does not exist as a file stands for
+        // the inputs of the statement: dependents see the time of the newest
+        // input (as Ninja does) instead of an always-changing missing file.
+        unsigned numOutputs = command->getOutputs().size();
+        std::vector<FileInfo> outputInfos(numOutputs);
         bool forceChange = false;
-        for (unsigned i = 0, e = result.getNumOutputs(); i != e; ++i) {
-            if (result.getNthOutputInfo(i).isMissing()) {
-                forceChange = true;
-                break;
+        for (unsigned i = 0; i != numOutputs; ++i) {
+          outputInfos[i] = FileInfo::getInfoForPath(
+              command->getOutputs()[i]->getCanonicalPath());
+          if (outputInfos[i].isMissing()) {
+            if (newestModTime.seconds != 0 || newestModTime.nanoseconds != 0) {
+              outputInfos[i].modTime = newestModTime;
+            } else {
+              // No existing inputs: force the change to propagate.
+              forceChange = true;
             }
+          }
         }
+        BuildValue result = numOutputs == 1 ?
+          BuildValue::makeSuccessfulCommand(outputInfos[0], commandHash) :
+          BuildValue::makeSuccessfulCommand(outputInfos.data(), numOutputs,
+                                            commandHash);
 
         return ti.complete(result.toValue(), forceChange);
       }
